@@ -274,8 +274,14 @@ func VH_C08_StackValues(p []int) {
 	n := s.Len()
 	for i := 0; i < n; i++ {
 		s.Index(i)
+		// every walker must cope with whatever value now sits at i
+		s.Traverse(i, 0)
+		s.Traverse(i, 0, 0)
 	}
 	_ = s.String()
+	_, _ = s.Unmarshal()
+	_ = s.IsNesting()
+	_ = s.IsEqual(s)
 	verifReach("end")
 }
 
